@@ -129,6 +129,9 @@ impl TypeAttributeBuilder {
                             output = Some(self.build_from_eq_meta(&meta)?);
                         }
                     }
+                } else {
+                    // `#[educe]` and `#[educe = ".."]` carry nothing a handler reads: refused here as on the type itself
+                    return Err(panic::educe_format_incorrect(path.get_ident().unwrap()));
                 }
             }
         }
